@@ -157,13 +157,28 @@ def run_timeline(ops):
             lab.run(lab.now + 0.0)
         return subs[m].app.got[-1][1] if len(subs[m].app.got) > n0 else None
 
+    used_keys = []
     for step in ops:
         k = step[0]
+        if k in ("resub", "recancel", "repv"):
+            # refer back to a subscription made earlier in this timeline (the j-th distinct one)
+            if not used_keys:
+                continue
+            m_, proc_, ob_ = used_keys[step[1] % len(used_keys)]
+            if k == "resub":
+                step = ["sub", SUBS.index(m_), proc_, ob_, step[2], step[3]]
+            elif k == "recancel":
+                step = ["cancel", SUBS.index(m_), proc_, ob_]
+            else:
+                step = ["pv", ob_, step[2]]
+            k = step[0]
         try:
             if k == "sub":
                 _, si, proc, ob, confirmed, lifetime = step
                 m = SUBS[si % 3]
                 key = (m, proc, ob)
+                if key not in used_keys:
+                    used_keys.append(key)
                 req = A.SubscribeCOVRequest(subscriberProcessIdentifier=proc, monitoredObjectIdentifier=objs[ob].objectIdentifier,
                                             issueConfirmedNotifications=bool(confirmed), lifetime=lifetime)
                 r = request(m, req)
@@ -318,7 +333,11 @@ def op_strategy():
     flags = st.tuples(st.just("flags"), ob, st.lists(st.integers(0, 1), min_size=4, max_size=4)).map(list)
     adv = st.tuples(st.just("adv"), st.sampled_from([0.5, 1.0, 4.0, 5.0, 7.3, 29.5, 30.0, 61.0, 120.4])).map(list)
     read = st.tuples(st.just("read"), st.integers(0, 2)).map(list)
-    return st.one_of(sub, sub, sub, cancel, pv, pv, pv, burst, flags, adv, adv, read)
+    lt = st.one_of(st.sampled_from([0, 0, 1, 5, 30, 60, 120]), st.integers(0, 120))
+    resub = st.tuples(st.just("resub"), st.integers(0, 5), st.booleans(), lt).map(list)
+    recancel = st.tuples(st.just("recancel"), st.integers(0, 5)).map(list)
+    repv = st.tuples(st.just("repv"), st.integers(0, 5), val).map(list)
+    return st.one_of(sub, sub, resub, resub, cancel, recancel, pv, pv, repv, repv, burst, flags, adv, adv, adv, read)
 
 
 def plan(tier, seed):
@@ -342,4 +361,9 @@ def run(spec, ctx):
                     ctx.check(dict(k="t", ops=base + [["sub", 1, 1, ob, conf, 10], ["sub", 2, 2, ob, not conf, 0], ["pv", ob, 170], ["cancel", 0, 1, ob], ["pv", ob, 100],
                                                       ["adv", 11.0], ["pv", ob, 140], ["read", 2]]))
                     ctx.check(dict(k="t", ops=base + [["cancel", 0, 1, ob], ["pv", ob, 177], ["sub", 0, 1, ob, conf, lt], ["pv", ob, 100], ["adv", 6.0], ["pv", ob, 133]]))
+                    # renewal matrix: every (old lifetime, new lifetime) pair, renewed early or late, observed before and after both expiry instants
+                    for lt2 in (0, 5, 20, 120):
+                        for wait in (1.0, 4.0):
+                            ctx.check(dict(k="t", ops=base + [["adv", wait], ["sub", 0, 1, ob, conf, lt2], ["pv", ob, 150], ["adv", 4.5], ["pv", ob, 100], ["read", 0], ["adv", 2.0], ["pv", ob, 160],
+                                                              ["adv", 15.0], ["pv", ob, 100], ["read", 0], ["adv", 101.0], ["pv", ob, 170], ["read", 0]]))
                     ctx.check(dict(k="t", ops=base + [["burst", ob, [120, 140]], ["burst", ob, [160, 140]], ["pv", ob, 128], ["pv", ob, 135], ["pv", ob, 151]]))
